@@ -5,6 +5,10 @@ use super::run::RunResult;
 use serde::{Deserialize, Serialize};
 use std::collections::BTreeMap;
 
+pub mod c02;
+pub mod c03;
+pub mod c06;
+pub mod c07;
 pub mod c08;
 pub mod common;
 
@@ -63,6 +67,10 @@ pub fn check(prop: &str, r: &RunResult) -> Report {
 		}
 	}
 	match prop {
+		"C02" => c02::check(r, &mut rep),
+		"C03" => c03::check(r, &mut rep),
+		"C06" => c06::check(r, &mut rep),
+		"C07" => c07::check(r, &mut rep),
 		"C08" => c08::check(r, &mut rep),
 		_ => {}
 	}
